@@ -23,7 +23,7 @@ theorem calc_hint_from_capacity_eq (up : Bool) (H : Layout) (hH : HeaderOK H) (L
 
 theorem calcSize_some {up : Bool} {H : Layout} (hH : HeaderOK H) {hint s : Nat}
     (h : calcSize up H hint = some s) :
-    16 ∣ s ∧ sizeAlign up H ∣ s ∧ H.size + 16 ≤ s ∧ hint ≤ s + 16 ∧ s < 2^64 := by sorry
+    16 ∣ s ∧ sizeAlign up H ∣ s ∧ H.size ≤ s ∧ hint ≤ s + 16 ∧ s < 2^64 := by sorry
 
 theorem calcSize_none_iff (up : Bool) (H : Layout) (hint : Nat) :
     calcSize up H hint = none ↔ 2^64 ≤ calcSizeRaw H hint := by sorry
